@@ -168,6 +168,9 @@ impl World {
 
     /// Always-on sanity of what the driver registered (full check is the C06 scenario).
     fn check_queue_registration(&mut self, q: u16) {
+        if !self.cfg.validate {
+            return;
+        }
         let r = self.tr.queues[q as usize].clone();
         let n = r.size as u64;
         let areas = [
@@ -206,6 +209,14 @@ impl World {
                         );
                     }
                 }
+            }
+        }
+        // rings must be zero when the device first sees them
+        let n = r.size as u64;
+        for (name, addr, len) in [("available ring", r.driver, 6 + 2 * n), ("used ring", r.device, 6 + 8 * n)] {
+            let mut buf = vec![0u8; len as usize];
+            if self.hal.dev_read(addr, &mut buf).is_ok() && buf.iter().any(|b| *b != 0) {
+                self.violation("ring-not-zeroed", &format!("q{q}/{name}"), format!("{name} is not all-zero at registration"));
             }
         }
         if self.tr.status & ST_DRIVER_OK != 0 {
